@@ -108,7 +108,13 @@ func typeOf(e *ev) string {
 // scenarioKey is the canonical abstract description of a behaviour: which fromEventIDs, how many servers, what
 // each asked server did (slice kind, wire fault and what the faulted event is worth), the deviations of the world,
 // cancellation.  No version, no IDs, no limit value.
-func (r *rec) scenarioKey() string {
+func (r *rec) scenarioKey() string { return r.scenarioKeyOf(true) }
+
+// protocolKey: the same without the carriage faults and the deviations of the world (for disagreements about who is
+// asked, the server lookup and the error report, which do not depend on them beyond what the answers' kinds say).
+func (r *rec) protocolKey() string { return r.scenarioKeyOf(false) }
+
+func (r *rec) scenarioKeyOf(full bool) string {
 	from := "tip"
 	switch len(r.From) {
 	case 0:
@@ -119,7 +125,7 @@ func (r *rec) scenarioKey() string {
 	var parts []string
 	for _, a := range r.Asks {
 		s := a.Kind
-		if a.FK != "none" {
+		if a.FK != "none" && full {
 			s += "/" + a.FK
 			if a.FJ >= 1 && a.FJ <= len(a.Under) && a.FK != "malformed" && a.FK != "foreign" {
 				s += "@" + a.Under[a.FJ-1]
@@ -152,6 +158,9 @@ func (r *rec) scenarioKey() string {
 	lim := "limit>0"
 	if r.Limit == 0 {
 		lim = "limit=0"
+	}
+	if !full {
+		return fmt.Sprintf("from=%s|%s|servers=%d|asks=%s|cancel=%s", from, lim, len(r.Servers), asks, r.Cancel)
 	}
 	return fmt.Sprintf("from=%s|%s|servers=%d|asks=%s|world=%s|cancel=%s", from, lim, len(r.Servers), asks, wk, r.Cancel)
 }
